@@ -204,6 +204,11 @@ func (r *rpcPlanVisitor) EnterSelectionSet(ref int) {
 		}
 
 		resolverFieldAncestor := r.fieldResolverAncestors.peek()
+		// The selection set of a composite field inside of the resolved field is part of the resolver response message.
+		if r.walker.Ancestor().Ref != r.resolverFields[resolverFieldAncestor].fieldRef {
+			return
+		}
+
 		if compositType := r.planCtx.getCompositeType(r.walker.EnclosingTypeDefinition); compositType != OneOfTypeNone {
 			memberTypes, err := r.planCtx.getMemberTypes(r.walker.EnclosingTypeDefinition)
 			if err != nil {
@@ -360,8 +365,23 @@ func (r *rpcPlanVisitor) EnterField(ref int) {
 
 	// Check if the field is inside of a resolver call.
 	if r.fieldResolverAncestors.len() > 0 {
-		// We don't want to call LeaveField here because we ignore the field entirely.
-		r.walker.SkipNode()
+		// The field is part of the resolver response message. We only descend into a composite field
+		// to find nested field resolvers, for which we need to extend the context path of the resolver.
+		if !r.operation.FieldHasSelections(ref) || r.walker.ResolveInlineFragment() != ast.InvalidRef {
+			// We don't want to call LeaveField here because we ignore the field entirely.
+			r.walker.SkipNode()
+			return
+		}
+
+		segment, err := r.planCtx.fieldPathSegment(r.walker.EnclosingTypeDefinition.NameString(r.definition), fieldDefRef, fieldName)
+		if err != nil {
+			r.walker.StopWithInternalErr(err)
+			return
+		}
+
+		ancestor := &r.resolverFields[r.fieldResolverAncestors.peek()]
+		ancestor.contextPath = ancestor.contextPath.WithFieldNameItem(segment)
+		r.fieldPath = r.fieldPath.WithFieldNameItem(segment)
 		return
 	}
 
@@ -430,6 +450,10 @@ func (r *rpcPlanVisitor) LeaveField(ref int) {
 	if r.planCtx.isFieldResolver(fieldDefRef, inRootField) {
 		// Pop the field resolver ancestor only when leaving a field resolver field.
 		r.fieldResolverAncestors.pop()
+	} else if r.fieldResolverAncestors.len() > 0 {
+		// Leaving a composite field inside of a resolved field, restore the context path of the resolver.
+		ancestor := &r.resolverFields[r.fieldResolverAncestors.peek()]
+		ancestor.contextPath = ancestor.contextPath.RemoveLastItem()
 	}
 }
 
